@@ -249,29 +249,34 @@ theorem parseTypeDefinition_unfold (env : Env) (fuel : Nat) (cn tn : String) (si
     exact ((ok_err _ _ _).mp h).elim
   | succ fuel =>
     rw [parseTypeDefinition_succ] at h
-    obtain ⟨st0, s0, h0, h⟩ := (ok_bind _ _ _ _ _).mp h
+    obtain ⟨st0, s0, h0, hA⟩ := (ok_bind _ _ _ _ _).mp h
     obtain ⟨e1, e2⟩ := (ok_get _ _ _).mp h0
     subst e1 e2
-    rw [if_neg (by simp [hfresh])] at h
-    obtain ⟨u, s1, h1, h⟩ := (ok_bind _ _ _ _ _).mp h
+    rw [if_neg (by rw [hfresh]; exact Bool.false_ne_true)] at hA
+    obtain ⟨u, s1, h1, hB⟩ := (ok_bind _ _ _ _ _).mp hA
     have hs1 := (ok_modify _ _ _ _).mp h1
     subst hs1
-    obtain ⟨x, s2, h2, h⟩ := (ok_bind _ _ _ _ _).mp h
-    obtain ⟨st1, s3, h3, h⟩ := (ok_bind _ _ _ _ _).mp h
+    obtain ⟨x, s2, h2, hC⟩ := (ok_bind _ _ _ _ _).mp hB
+    obtain ⟨st1, s3, h3, hD⟩ := (ok_bind _ _ _ _ _).mp hC
     obtain ⟨e3, e4⟩ := (ok_get _ _ _).mp h3
     subst e3 e4
     by_cases hc : (a && !((if s3.marks.contains sid then typenameRField :: x.1 else x.1).any (·.name == typenameField))) = true
-    · simp only [hc, if_true] at h
-      obtain ⟨u2, s4, h4, h⟩ := (ok_bind _ _ _ _ _).mp h
+    · simp only [hc, if_true] at hD
+      obtain ⟨u2, s4, h4, hE⟩ := (ok_bind _ _ _ _ _).mp hD
       have hs4 := (ok_modify _ _ _ _).mp h4
       subst hs4
-      obtain ⟨acc, hl, rfl⟩ := classTail_ok _ _ _ _ _ _ _ _ _ _ _ h
-      refine ⟨x, s3, _, acc, fuel, rfl, h2, ?_, rfl⟩
-      simpa only [afterTypename, hc, if_true] using hl
-    · simp only [hc] at h
-      obtain ⟨acc, hl, rfl⟩ := classTail_ok _ _ _ _ _ _ _ _ _ _ _ h
-      refine ⟨x, s3, _, acc, fuel, rfl, h2, ?_, rfl⟩
-      simpa only [afterTypename, hc] using hl
+      obtain ⟨acc, hl, hcs⟩ := classTail_ok _ _ _ _ _ _ _ _ _ _ _ hE
+      refine ⟨x, s3, typenameRField :: (if s3.marks.contains sid then typenameRField :: x.1 else x.1), acc, fuel, rfl, h2, ?_, hcs⟩
+      have hst : afterTypename a sid (if s3.marks.contains sid then typenameRField :: x.1 else x.1) s3 =
+          { s3 with marks := if s3.marks.contains sid then s3.marks else s3.marks ++ [sid] } := by
+        unfold afterTypename; rw [if_pos hc]
+      rw [hst]; exact hl
+    · simp only [hc] at hD
+      obtain ⟨acc, hl, hcs⟩ := classTail_ok _ _ _ _ _ _ _ _ _ _ _ hD
+      refine ⟨x, s3, (if s3.marks.contains sid then typenameRField :: x.1 else x.1), acc, fuel, rfl, h2, ?_, hcs⟩
+      have hst : afterTypename a sid (if s3.marks.contains sid then typenameRField :: x.1 else x.1) s3 = s3 := by
+        unfold afterTypename; rw [if_neg hc]
+      rw [hst]; exact hl
 
 theorem parseTypeDefinition_seen (env : Env) (fuel : Nat) (cn tn : String) (sid : Nat) (sel : List Selection) (a : Bool)
     (eb tv : List String) (st : St) (cs : List ClassDecl) (st' : St)
@@ -283,11 +288,180 @@ theorem parseTypeDefinition_seen (env : Env) (fuel : Nat) (cn tn : String) (sid 
     exact ((ok_err _ _ _).mp h).elim
   | succ fuel =>
     rw [parseTypeDefinition_succ] at h
-    obtain ⟨st0, s0, h0, h⟩ := (ok_bind _ _ _ _ _).mp h
+    obtain ⟨st0, s0, h0, hA⟩ := (ok_bind _ _ _ _ _).mp h
     obtain ⟨e1, e2⟩ := (ok_get _ _ _).mp h0
     subst e1 e2
-    rw [if_pos hseen] at h
-    obtain ⟨e3, e4⟩ := (ok_pure _ _ _ _).mp h
+    rw [if_pos hseen] at hA
+    obtain ⟨e3, e4⟩ := (ok_pure _ _ _ _).mp hA
     exact ⟨e3.symm, e4.symm⟩
+
+/-! ### every base of every generated class is accounted for; only fragments with a class of their own are inherited -/
+
+/-- a name in a class's base list is `BaseModel`, the class of a fragment recorded in
+    `_fragments_used_as_mixins`, or a class imported because of a `@mixin` directive -/
+def Accounted (st : St) (b : String) : Prop :=
+  b = "BaseModel" ∨ (∃ n ∈ st.mixins, b = pascal n) ∨ (∃ p ∈ st.mixinImports, b = p.2)
+
+def BasesOK (st : St) (cs : List ClassDecl) : Prop := ∀ c ∈ cs, ∀ b ∈ c.bases, Accounted st b
+
+/-- the extra bases handed to a call have been imported -/
+def Imported (st : St) (eb : List String) : Prop := ∀ b ∈ eb, ∃ p ∈ st.mixinImports, b = p.2
+
+/-- the two sets the property looks at only grow, and stay inside the fragments that get a class -/
+structure Grow (env : Env) (st st' : St) : Prop where
+  mixins : ∀ n ∈ st.mixins, n ∈ st'.mixins
+  imports : ∀ p ∈ st.mixinImports, p ∈ st'.mixinImports
+  good : (∀ n ∈ st.mixins, GoodMixin env n) → ∀ n ∈ st'.mixins, GoodMixin env n
+
+theorem Grow.refl (env : Env) (st : St) : Grow env st st := ⟨fun _ h => h, fun _ h => h, fun h => h⟩
+
+theorem Grow.trans {env : Env} {a b c : St} (h₁ : Grow env a b) (h₂ : Grow env b c) : Grow env a c :=
+  ⟨fun n h => h₂.mixins n (h₁.mixins n h), fun p h => h₂.imports p (h₁.imports p h), fun h => h₂.good (h₁.good h)⟩
+
+theorem Grow.of_eq {env : Env} {a b : St} (hm : b.mixins = a.mixins) (hi : b.mixinImports = a.mixinImports) : Grow env a b :=
+  ⟨fun n h => hm ▸ h, fun p h => hi ▸ h, fun h n hn => h n (hm ▸ hn)⟩
+
+theorem Accounted.mono {env : Env} {st st' : St} (g : Grow env st st') {b : String} (h : Accounted st b) : Accounted st' b := by
+  rcases h with h | ⟨n, hn, rfl⟩ | ⟨p, hp, rfl⟩
+  · exact Or.inl h
+  · exact Or.inr (Or.inl ⟨n, g.mixins n hn, rfl⟩)
+  · exact Or.inr (Or.inr ⟨p, g.imports p hp, rfl⟩)
+
+theorem BasesOK.mono {env : Env} {st st' : St} (g : Grow env st st') {cs : List ClassDecl} (h : BasesOK st cs) : BasesOK st' cs :=
+  fun c hc b hb => (h c hc b hb).mono g
+
+theorem Imported.mono {env : Env} {st st' : St} (g : Grow env st st') {eb : List String} (h : Imported st eb) : Imported st' eb :=
+  fun b hb => let ⟨p, hp, e⟩ := h b hb; ⟨p, g.imports p hp, e⟩
+
+theorem BasesOK.append {st : St} {a b : List ClassDecl} (ha : BasesOK st a) (hb : BasesOK st b) : BasesOK st (a ++ b) := by
+  intro c hc
+  rcases List.mem_append.mp hc with h | h
+  · exact ha c h
+  · exact hb c h
+
+theorem afterTypename_mixins (a : Bool) (sid : Nat) (r : List RField) (st : St) :
+    (afterTypename a sid r st).mixins = st.mixins ∧ (afterTypename a sid r st).mixinImports = st.mixinImports ∧
+    (afterTypename a sid r st).publicNames = st.publicNames := by
+  unfold afterTypename
+  split <;> exact ⟨rfl, rfl, rfl⟩
+
+theorem Grow.of_resolve {env : Env} {st : St} {x : Acc} {st' : St} (sp : RSpec env st x st') : Grow env st st' :=
+  ⟨fun n h => (sp.mixins n).mpr (Or.inl h), fun p h => sp.frame.mixinImports ▸ h,
+   fun h n hn => by
+    rcases (sp.mixins n).mp hn with h' | h'
+    · exact h n h'
+    · exact sp.good n h'⟩
+
+theorem Grow.of_mixinBases {env : Env} (st : St) (ps : List (String × String)) : Grow env st (addImports st ps) :=
+  ⟨fun _ h => h, fun p h => List.mem_append_left _ h, fun h => h⟩
+
+/-- one iteration of the field loop of `_parse_type_definition` -/
+theorem fieldBody_ok (env : Env) (fuel : Nat)
+    (ihQ : ∀ sid sel ctx eb st cs st', Imported st eb → parseFieldSelectionSetTypes env fuel sid sel ctx eb st = .ok (cs, st') →
+      Grow env st st' ∧ BasesOK st' cs)
+    (cn tn : String) (tv : List String) (f : RField) (acc : FAcc) (s : St) (r : ForInStep FAcc) (s' : St)
+    (h : fieldBody env fuel cn tn tv f acc s = .ok (r, s')) :
+    ∃ (fd : FieldDecl) (more : List ClassDecl), r = .yield (acc.1 ++ [fd], acc.2 ++ more) ∧ Grow env s s' ∧ BasesOK s' more := by
+  unfold fieldBody at h
+  obtain ⟨t, s1, h1, hA⟩ := (ok_bind _ _ _ _ _).mp h
+  obtain ⟨_, e1⟩ := (ok_liftExcept _ _ _ _).mp h1
+  subst e1
+  obtain ⟨x, s2, h2, hB⟩ := (ok_bind _ _ _ _ _).mp hA
+  obtain ⟨_, e2⟩ := (ok_liftExcept _ _ _ _).mp h2
+  subst e2
+  obtain ⟨fb, s3, h3, hC⟩ := (ok_bind _ _ _ _ _).mp hB
+  obtain ⟨hfb, hs3⟩ := mixinBases_spec _ _ _ _ h3
+  obtain ⟨more, s4, h4, hD⟩ := (ok_bind _ _ _ _ _).mp hC
+  obtain ⟨u, s5, h5, hE⟩ := (ok_bind _ _ _ _ _).mp hD
+  have hs5 := (ok_modify _ _ _ _).mp h5
+  obtain ⟨e3, e4⟩ := (ok_pure _ _ _ _).mp hE
+  have himp : Imported s3 fb := by
+    intro b hb
+    rw [hfb] at hb
+    obtain ⟨p, hp, rfl⟩ := List.mem_map.mp hb
+    exact ⟨p, by rw [hs3]; exact List.mem_append_right _ hp, rfl⟩
+  obtain ⟨g4, b4⟩ := ihQ _ _ _ _ _ _ _ himp h4
+  have g3 : Grow env s2 s3 := hs3 ▸ Grow.of_mixinBases s2 _
+  have g5 : Grow env s4 s5 := by rw [hs5]; exact Grow.of_eq rfl rfl
+  refine ⟨_, more, e3.symm, ?_, ?_⟩
+  · rw [← e4]; exact (g3.trans g4).trans g5
+  · rw [← e4]; exact b4.mono g5
+
+/-- **invariants of the class-producing recursion** (any fuel, any state): the mixin set and the import list
+    only grow, inherited fragments all get a class of their own, every base of every produced class is
+    accounted for -/
+theorem parse_spec (env : Env) : ∀ fuel : Nat,
+    (∀ cn tn sid sel a eb tv st cs st', Imported st eb →
+      parseTypeDefinition env fuel cn tn sid sel a eb tv st = .ok (cs, st') → Grow env st st' ∧ BasesOK st' cs) ∧
+    (∀ sid sel ctx eb st cs st', Imported st eb →
+      parseFieldSelectionSetTypes env fuel sid sel ctx eb st = .ok (cs, st') → Grow env st st' ∧ BasesOK st' cs)
+  | 0 => by
+    constructor
+    · intro cn tn sid sel a eb tv st cs st' _ h
+      rw [parseTypeDefinition_zero] at h
+      exact ((ok_err _ _ _).mp h).elim
+    · intro sid sel ctx eb st cs st' _ h
+      rw [parseFieldSelectionSetTypes_zero] at h
+      exact ((ok_err _ _ _).mp h).elim
+  | fuel + 1 => by
+    obtain ⟨ihP, ihQ⟩ := parse_spec env fuel
+    constructor
+    · intro cn tn sid sel a eb tv st cs st' himp h
+      cases hseen : st.publicNames.contains cn with
+      | true =>
+        obtain ⟨rfl, rfl⟩ := parseTypeDefinition_seen _ _ _ _ _ _ _ _ _ _ _ _ h hseen
+        exact ⟨Grow.refl _ _, fun c hc => by cases hc⟩
+      | false =>
+        obtain ⟨x, st1, resolved, acc, fuel', hfu, hres, hloop, hcs⟩ := parseTypeDefinition_unfold _ _ _ _ _ _ _ _ _ _ _ _ h hseen
+        have hfu' : fuel' = fuel := by omega
+        subst hfu'
+        have sp := resolve_spec env _ _ _ _ _ _ hres
+        have g1 : Grow env st st1 := (Grow.of_eq (env := env) (a := st) (b := { st with publicNames := st.publicNames ++ [cn] }) rfl rfl).trans (Grow.of_resolve sp)
+        have hat := afterTypename_mixins a sid (if st1.marks.contains sid then typenameRField :: x.1 else x.1) st1
+        have g2 : Grow env st1 (afterTypename a sid (if st1.marks.contains sid then typenameRField :: x.1 else x.1) st1) :=
+          Grow.of_eq hat.1 hat.2.1
+        have inv := forIn_ok_inv
+          (fun (b : FAcc) (s : St) => Grow env (afterTypename a sid (if st1.marks.contains sid then typenameRField :: x.1 else x.1) st1) s ∧ BasesOK s b.2)
+          (fieldBody env fuel' cn tn tv) resolved ([], []) _ acc st'
+          (by
+            intro f _ b s r s' ⟨hg, hb⟩ hr
+            obtain ⟨fd, more, rfl, g, bm⟩ := fieldBody_ok env fuel' ihQ cn tn tv f b s r s' hr
+            exact ⟨hg.trans g, (hb.mono g).append bm⟩)
+          ⟨Grow.refl _ _, fun c hc => by cases hc⟩ hloop
+        obtain ⟨g3, b3⟩ := inv
+        have gAll : Grow env st st' := (g1.trans g2).trans g3
+        refine ⟨gAll, ?_⟩
+        rw [hcs]
+        intro c hc
+        rcases List.mem_cons.mp hc with rfl | hc
+        · intro b hb
+          rcases mem_classBases hb with h1 | ⟨n, hn, rfl⟩ | h3
+          · exact Or.inl h1
+          · exact Or.inr (Or.inl ⟨n, (g2.trans g3).mixins n ((sp.mixins n).mpr (Or.inr hn)), rfl⟩)
+          · obtain ⟨p, hp, e⟩ := himp b h3
+            exact Or.inr (Or.inr ⟨p, gAll.imports p hp, e⟩)
+        · exact b3 c hc
+    · intro sid sel ctx eb st cs st' himp h
+      rw [parseFieldSelectionSetTypes_succ] at h
+      by_cases hemp : sel.isEmpty = true
+      · rw [if_pos hemp] at h
+        obtain ⟨e1, e2⟩ := (ok_pure _ _ _ _).mp h
+        subst e1 e2
+        exact ⟨Grow.refl _ _, fun c hc => by cases hc⟩
+      · rw [if_neg hemp] at h
+        obtain ⟨acc, s1, h1, h2⟩ := (ok_bind _ _ _ _ _).mp h
+        obtain ⟨e1, e2⟩ := (ok_pure _ _ _ _).mp h2
+        subst e1 e2
+        exact forIn_ok_inv (fun (b : List ClassDecl) (s : St) => Grow env st s ∧ BasesOK s b)
+          (relatedBody env fuel sid sel ctx eb) ctx.related [] st acc s1
+          (by
+            intro rc _ b s r s' ⟨hg, hb⟩ hr
+            unfold relatedBody at hr
+            obtain ⟨cs1, s2, h3, h4⟩ := (ok_bind _ _ _ _ _).mp hr
+            obtain ⟨e3, e4⟩ := (ok_pure _ _ _ _).mp h4
+            subst e3 e4
+            obtain ⟨g, bm⟩ := ihP _ _ _ _ _ _ _ _ _ _ (himp.mono hg) h3
+            exact ⟨hg.trans g, (hb.mono g).append bm⟩)
+          ⟨Grow.refl _ _, fun c hc => by cases hc⟩ h1
 
 end Ariadne.ResultTypes
